@@ -2,14 +2,24 @@ package main
 
 import (
 	"context"
+	"crypto/ecdsa"
+	"crypto/elliptic"
+	"crypto/rand"
+	"crypto/tls"
+	"crypto/x509"
+	"crypto/x509/pkix"
 	"encoding/json"
 	"errors"
 	"fmt"
+	"io"
+	"math/big"
 	"net"
+	"net/http"
 	"sync"
 	"time"
 
 	mqtt "github.com/at-wat/mqtt-go"
+	"golang.org/x/net/websocket"
 
 	"verifharness/netsim"
 )
@@ -29,6 +39,9 @@ type DialerScenario struct {
 	// Unconnected: no listener at all -- every request on a BaseClient whose Connect was never called must fail with
 	// an error in which errors.Is finds ErrNotConnected
 	Unconnected bool `json:"unconnected,omitempty"`
+	// Transport: "" plain TCP (mqtt://); "tls" (mqtts://, self-signed certificate made at run time, handed to the client
+	// through WithTLSConfig); "ws" / "wss" (WebSocket, golang.org/x/net/websocket on the listener's side)
+	Transport string `json:"transport,omitempty"`
 }
 
 type DialerResult struct {
@@ -43,6 +56,10 @@ type DialerResult struct {
 	Connects  []string `json:"connects"` // hex of every CONNECT packet
 	Stored    bool     `json:"stored"`   // BaseClientStoreDialer.BaseClient() returned the dialled client
 	Infra     string   `json:"infra,omitempty"`
+	// WebSocket transports: every frame the listener received was a binary frame / the sub-protocol offered was "mqtt"
+	// (MQTT 3.1.1 section 6; recorded, no listed property speaks about it)
+	WSBinary   *bool `json:"wsBinary,omitempty"`
+	WSProtocol *bool `json:"wsProtocol,omitempty"`
 	// Unconnected: per call, whether errors.Is(err, ErrNotConnected)
 	NotConn map[string]bool `json:"notConnected,omitempty"`
 }
@@ -83,73 +100,118 @@ func runDialer(sc *DialerScenario) *DialerResult {
 	defer ln.Close()
 	var mu sync.Mutex
 	closeFirst := sc.Reconnects
-	go func() {
+	handle := func(c io.ReadWriteCloser, setDeadline func(time.Time) error) {
+		mu.Lock()
+		idx := len(res.Packets)
+		res.Packets = append(res.Packets, "")
+		dropAfterConnack := closeFirst > 0
+		if dropAfterConnack {
+			closeFirst--
+		}
+		mu.Unlock()
+		defer c.Close()
+		buf := []byte{}
+		tmp := make([]byte, 4096)
 		for {
-			conn, err := ln.Accept()
+			setDeadline(time.Now().Add(3 * time.Second))
+			n, err := c.Read(tmp)
+			buf = append(buf, tmp[:n]...)
+			for {
+				p, k := netsim.Frame(buf)
+				if p == nil || k == 0 {
+					break
+				}
+				mu.Lock()
+				if res.Packets[idx] != "" {
+					res.Packets[idx] += " "
+				}
+				res.Packets[idx] += p.Name()
+				if p.Type == 0x10 {
+					res.Connects = append(res.Connects, fmt.Sprintf("%x", buf[:k]))
+				}
+				mu.Unlock()
+				buf = buf[k:]
+				switch p.Type {
+				case 0x10:
+					c.Write(netsim.ConnAck(false, 0))
+					if dropAfterConnack {
+						time.Sleep(5 * time.Millisecond)
+						return
+					}
+				case 0x30:
+					if p.QoS == 1 {
+						c.Write(netsim.Ack(0x40, p.ID))
+					} else if p.QoS == 2 {
+						c.Write(netsim.Ack(0x50, p.ID))
+					}
+				case 0x60:
+					c.Write(netsim.Ack(0x70, p.ID))
+				case 0xE0:
+					return
+				}
+			}
 			if err != nil {
 				return
 			}
-			mu.Lock()
-			idx := len(res.Packets)
-			res.Packets = append(res.Packets, "")
-			dropAfterConnack := closeFirst > 0
-			if dropAfterConnack {
-				closeFirst--
-			}
-			mu.Unlock()
-			go func(c net.Conn) {
-				defer c.Close()
-				buf := []byte{}
-				tmp := make([]byte, 4096)
-				for {
-					c.SetReadDeadline(time.Now().Add(3 * time.Second))
-					n, err := c.Read(tmp)
-					buf = append(buf, tmp[:n]...)
-					for {
-						p, k := netsim.Frame(buf)
-						if p == nil || k == 0 {
-							break
-						}
-						mu.Lock()
-						if res.Packets[idx] != "" {
-							res.Packets[idx] += " "
-						}
-						res.Packets[idx] += p.Name()
-						if p.Type == 0x10 {
-							res.Connects = append(res.Connects, fmt.Sprintf("%x", buf[:k]))
-						}
-						mu.Unlock()
-						buf = buf[k:]
-						switch p.Type {
-						case 0x10:
-							c.Write(netsim.ConnAck(false, 0))
-							if dropAfterConnack {
-								time.Sleep(5 * time.Millisecond)
-								return
-							}
-						case 0x30:
-							if p.QoS == 1 {
-								c.Write(netsim.Ack(0x40, p.ID))
-							} else if p.QoS == 2 {
-								c.Write(netsim.Ack(0x50, p.ID))
-							}
-						case 0x60:
-							c.Write(netsim.Ack(0x70, p.ID))
-						case 0xE0:
-							return
-						}
-					}
-					if err != nil {
-						return
+		}
+	}
+	var tlsClient *tls.Config
+	if sc.Transport == "tls" || sc.Transport == "wss" {
+		cert, pool, err := selfSigned()
+		if err != nil {
+			res.Infra = "certificate: " + err.Error()
+			return res
+		}
+		ln = tls.NewListener(ln, &tls.Config{Certificates: []tls.Certificate{cert}})
+		tlsClient = &tls.Config{RootCAs: pool, ServerName: "127.0.0.1"}
+	}
+	if sc.Transport == "ws" || sc.Transport == "wss" {
+		allBinary, protoOK := true, true
+		res.WSBinary, res.WSProtocol = &allBinary, &protoOK
+		srv := &http.Server{Handler: websocket.Server{
+			Handshake: func(cfg *websocket.Config, _ *http.Request) error {
+				ok := false
+				for _, p := range cfg.Protocol {
+					if p == "mqtt" {
+						ok = true
 					}
 				}
-			}(conn)
-		}
-	}()
+				mu.Lock()
+				protoOK = protoOK && ok
+				mu.Unlock()
+				if ok {
+					cfg.Protocol = []string{"mqtt"}
+				}
+				return nil
+			},
+			Handler: func(ws *websocket.Conn) {
+				ws.PayloadType = websocket.BinaryFrame
+				handle(&wsFrames{ws: ws, onType: func(t byte) {
+					if t != websocket.BinaryFrame {
+						mu.Lock()
+						allBinary = false
+						mu.Unlock()
+					}
+				}}, ws.SetReadDeadline)
+			},
+		}}
+		go srv.Serve(ln)
+		defer srv.Close()
+	} else {
+		go func() {
+			for {
+				conn, err := ln.Accept()
+				if err != nil {
+					return
+				}
+				go handle(conn, conn.SetReadDeadline)
+			}
+		}()
+	}
 
 	scheme := sc.Scheme
 	if scheme == "" {
-		scheme = "mqtt"
+		scheme = map[string]string{"": "mqtt", "tls": "mqtts", "ws": "ws", "wss": "wss"}[sc.Transport]
 	}
 	url := fmt.Sprintf("%s://%s", scheme, ln.Addr().String())
 	ctx, cancel := context.WithTimeout(context.Background(), 5*time.Second)
@@ -162,6 +224,9 @@ func runDialer(sc *DialerScenario) *DialerResult {
 			res.States = append(res.States, fmt.Sprintf("%s(%s)", s, netsim.ErrClass(err)))
 			smu.Unlock()
 		}),
+	}
+	if tlsClient != nil {
+		opts = append(opts, mqtt.WithTLSConfig(tlsClient))
 	}
 	store := &mqtt.BaseClientStoreDialer{Dialer: &mqtt.URLDialer{URL: url, Options: opts}}
 	payload := make([]byte, sc.Payload)
@@ -221,4 +286,59 @@ func runDialer(sc *DialerScenario) *DialerResult {
 	res.Packets = append([]string{}, res.Packets...)
 	res.States = append([]string{}, res.States...)
 	return res
+}
+
+// wsFrames reads a WebSocket connection frame by frame (to see each frame's type) and presents it as a byte stream.
+type wsFrames struct {
+	ws      *websocket.Conn
+	onType  func(byte)
+	pending []byte
+}
+
+func (w *wsFrames) Read(b []byte) (int, error) {
+	if len(w.pending) == 0 {
+		var data []byte
+		codec := websocket.Codec{
+			Marshal: func(v interface{}) ([]byte, byte, error) { return v.([]byte), websocket.BinaryFrame, nil },
+			Unmarshal: func(d []byte, t byte, v interface{}) error {
+				w.onType(t)
+				*(v.(*[]byte)) = append([]byte{}, d...)
+				return nil
+			},
+		}
+		if err := codec.Receive(w.ws, &data); err != nil {
+			return 0, err
+		}
+		w.pending = data
+	}
+	n := copy(b, w.pending)
+	w.pending = w.pending[n:]
+	return n, nil
+}
+func (w *wsFrames) Write(b []byte) (int, error) { return w.ws.Write(b) }
+func (w *wsFrames) Close() error                { return w.ws.Close() }
+
+// selfSigned makes a certificate for 127.0.0.1 and a pool that trusts it.
+func selfSigned() (tls.Certificate, *x509.CertPool, error) {
+	key, err := ecdsa.GenerateKey(elliptic.P256(), rand.Reader)
+	if err != nil {
+		return tls.Certificate{}, nil, err
+	}
+	tmpl := &x509.Certificate{
+		SerialNumber: big.NewInt(1), Subject: pkix.Name{CommonName: "verif loop-back"},
+		NotBefore: time.Now().Add(-time.Hour), NotAfter: time.Now().Add(24 * time.Hour),
+		KeyUsage: x509.KeyUsageDigitalSignature | x509.KeyUsageCertSign, ExtKeyUsage: []x509.ExtKeyUsage{x509.ExtKeyUsageServerAuth},
+		IsCA: true, BasicConstraintsValid: true, IPAddresses: []net.IP{net.ParseIP("127.0.0.1")},
+	}
+	der, err := x509.CreateCertificate(rand.Reader, tmpl, tmpl, &key.PublicKey, key)
+	if err != nil {
+		return tls.Certificate{}, nil, err
+	}
+	leaf, err := x509.ParseCertificate(der)
+	if err != nil {
+		return tls.Certificate{}, nil, err
+	}
+	pool := x509.NewCertPool()
+	pool.AddCert(leaf)
+	return tls.Certificate{Certificate: [][]byte{der}, PrivateKey: key, Leaf: leaf}, pool, nil
 }
